@@ -7,8 +7,10 @@ import (
 	"strconv"
 
 	"bytes"
+	"github.com/DataDog/sketches-go/ddsketch"
 	"github.com/DataDog/sketches-go/ddsketch/mapping"
 	"github.com/DataDog/sketches-go/ddsketch/pb/sketchpb"
+	"github.com/DataDog/sketches-go/ddsketch/store"
 	"google.golang.org/protobuf/proto"
 )
 
@@ -124,6 +126,52 @@ func (r *Runner) execMapping(cmd string, a []string) string {
 		okp, msg := guard(func() { r.mappingForms(a[0], m) })
 		if !okp {
 			r.oracleFail("panic", "mapping forms: "+msg)
+		}
+		return "ok"
+	case "mkalpha":
+		if len(a) != 2 {
+			return "bad-op"
+		}
+		alpha, _ := parseF(a[1])
+		_, err := mappingFromAlpha(a[0], alpha)
+		_, err2 := ddsketch.NewDefaultDDSketch(alpha)
+		want := !(alpha > 0 && alpha < 1)
+		if (err != nil) != want && !math.IsNaN(alpha) {
+			r.oracleFail("constructor-decision", fmt.Sprintf("%s mapping with accuracy %v: err=%v", a[0], alpha, err))
+		}
+		if (err2 != nil) != want && !math.IsNaN(alpha) {
+			r.oracleFail("constructor-decision", fmt.Sprintf("NewDefaultDDSketch(%v): err=%v", alpha, err2))
+		}
+		if err != nil {
+			return "err"
+		}
+		return "ok"
+	case "mkgamma":
+		if len(a) != 3 {
+			return "bad-op"
+		}
+		g, _ := parseF(a[1])
+		o, _ := parseF(a[2])
+		_, err := newMapping(a[0], g, o)
+		if (err != nil) != !(g > 1) && !math.IsNaN(g) {
+			r.oracleFail("constructor-decision", fmt.Sprintf("%s mapping with gamma %v: err=%v", a[0], g, err))
+		}
+		if err != nil {
+			return "err"
+		}
+		return "ok"
+	case "mkbin":
+		if len(a) != 2 {
+			return "bad-op"
+		}
+		i, _ := strconv.Atoi(a[0])
+		c, _ := parseF(a[1])
+		_, err := store.NewBin(i, c)
+		if (err != nil) != (c < 0) && !math.IsNaN(c) {
+			r.oracleFail("constructor-decision", fmt.Sprintf("NewBin(%d, %v): err=%v", i, c, err))
+		}
+		if err != nil {
+			return "err"
 		}
 		return "ok"
 	case "mapeq":
